@@ -187,11 +187,14 @@ def alphabet(kind):
     if kind == "split":      # the reply to request 1 arrives in two pieces: loss / cancel / close possible inside a frame
         fr = D.simnet.frame(F1)
         a = [e for e in a if e != ("make", 2, False)] + [("data", fr[:5]), ("data", fr[5:])]
+    if kind == "hook":       # no-reply requests whose callback closes the client / cancels another request (Model/BrokerClientHook.v)
+        a = [("makethen", 1, ("close",)), ("makethen", 1, ("cancel", 1)), ("makethen", 2, ("cancel", 0)), ("make", 2, True), ("make", 3, True),
+             ("cancel", 0), ("cancel", 1), ("frame", D.reply(2)), ("ok",), ("fail",), ("lost",), ("fire",), ("close",)]
     return a
 
 
-def _expand(seq, alpha):
-    im = D.Impl("const")
+def _expand(seq, alpha, hook=False):
+    im = HookImpl("const", None, {}) if hook else D.Impl("const")
     for ev in seq:
         im.apply(ev)
     nxt = [ev for ev in alpha if im.enabled(ev) and not (ev[0] == "close" and im.closed)]
@@ -200,16 +203,21 @@ def _expand(seq, alpha):
 
 def _shard(args):
     prefixes, depth, alpha, which, exe = args
+    hook = exe.endswith("hook")
     lines, traces, seqs = [], [], []
     nmon, mon_first = 0, None
     stack = [list(p) for p in prefixes]
     while stack:
         seq = stack.pop()
-        recs, nxt = _expand(seq, alpha)
-        lines.append(vlib.encode_line(D.enc_case(seq)))
+        recs, nxt = _expand(seq, alpha, hook)
+        lines.append(vlib.encode_line(enc_hcase(seq) if hook else D.enc_case(seq)))
         traces.append(vlib.encode_line(D.enc_trace(recs)))
         seqs.append(seq)
-        b = D.monitor(recs, which)
+        if hook:
+            g = generic_monitor(recs, which[0])
+            b = [g] if g else []
+        else:
+            b = D.monitor(recs, which)
         if b:
             nmon += 1
             if mon_first is None:
@@ -240,11 +248,11 @@ def exhaustive(ck, depth, kind, which, tied, rnd, procs=16, split_depth=3):
     for _ in range(min(split_depth, depth)):
         nl = []
         for s in level:
-            _r, nxt = _expand(s, alpha)
+            _r, nxt = _expand(s, alpha, kind == "hook")
             nl += [s + [ev] for ev in nxt]
         short += level
         level = nl
-    exe = os.path.join(vlib.OUT, "run_" + MODEL)
+    exe = os.path.join(vlib.OUT, "run_" + (MODEL + "hook" if kind == "hook" else MODEL))
     short = [s for s in short if s]
     shards = [[] for _ in range(procs * 4)]
     for i, s in enumerate(level):
@@ -266,7 +274,17 @@ def exhaustive(ck, depth, kind, which, tied, rnd, procs=16, split_depth=3):
         ck.hist("exhaustive_events_" + kind, r["events"])
     mon = [r["mon_first"] for r in results if r["mon_first"]]
     dif = [r["diff_first"] for r in results if r["diff_first"]]
-    if mon:
+    if kind == "hook":
+        if mon:
+            seq, (thm, msg, idx) = min(mon, key=lambda m: len(m[0]))
+            ck.violation({"kind": "monitor (exhaustive small-scope enumeration, callbacks inside the queue flush)", "theorem": thm,
+                          "message": msg, "events": D.jsonable(seq), "hooks": {}, "replay_op": "bc-hook"})
+        elif dif:
+            seq, it, mt = min(dif, key=lambda d: len(d[0]))
+            ck.violation({"kind": "correspondence broken", "correspondence": "corr:brokerclienthook:" + label,
+                          "theorems_no_longer_tied": tied, "events": D.jsonable(seq), "hooks": {}, "impl": it, "model": mt,
+                          "differing_cases": st["differences"], "replay_op": "bc-hook"}, no_input=True)
+    elif mon:
         seq, (thm, msg, idx) = mon[0]
         small = D.shrink(seq, failing_fn(thm, which, "const"))
         ck.violation({"kind": "monitor (exhaustive small-scope enumeration)", "theorem": thm, "message": msg,
